@@ -85,6 +85,16 @@ check(
     thorough=False,
 )
 
+check(
+    "C15",
+    "other",
+    "bounded (full 64-bit width) SMT verification of the C fast paths of mypyc's runtime: clang -O1 LLVM IR of the real CPy.h / int_ops.c is regenerated on every run and translated to z3 (bit-vector domain; integer domain with axiomatised truncating division for multiply/divide/remainder). For all operand words: whenever a fast path answers, operands and result are short tagged ints and the value is exactly Python's (+ - * // % & | ^ << >> neg invert, six comparisons, range/overflow predicates, boxing, i64/i32/i16 // and %), error sentinel iff Python raises, and every nsw/shift/division precondition on the way holds (no UB). Counterexamples are replayed by compiling a one-operation module with mypyc and comparing with the interpreter.",
+    "trusted: z3; clang -O1 IR faithful to the C source; slow paths through PyLong are uninterpreted stubs; canonical-form invariant of boxed ints; floor-division/modulo characterised by the standard quotient-remainder lemma; float kernels and CPyLong_As* outside",
+    "translation of compiler IR (LLVM) to SMT, all inputs at full width; z3",
+    "DESIGN.md 4/C15",
+    engine="llvm2smt",
+)
+
 ALL = [f"C{i:02d}" for i in range(1, 21)]
 
 
@@ -123,6 +133,7 @@ def main():
             "add_only": True,
         },
         "engines": [
+            {"name": "llvm2smt", "path": "vf/llvm2smt.py", "serves_properties": sorted(p for p, c in CHECKS.items() if "llvm2smt" in c["engine"]), "kind_free_text": "clang -O1 -emit-llvm of the real lib-rt C sources, loop-free functions translated to z3 (bit-vector and integer domains), stubs for slow paths, no-UB obligations from nsw/nuw/shift/division"},
             {"name": "symx", "path": "vf/symx.py", "serves_properties": sorted(p for p, c in CHECKS.items() if "symx" in c["engine"]), "kind_free_text": "decision-replay symbolic executor on z3: real Python functions re-read from /repo, builtins re-pointed at proxy-aware shims by AST rewrite, one re-execution per feasible path"},
         ],
         "checks": checks,
